@@ -2,6 +2,7 @@
    NULL-ignoring aggregates (uninterpreted ones return the bag they are fed), grouping, ordering (NULL smallest), slicing.
    Hand-written; tied to DuckDB by the correspondence checks of C01-C08.  No proofs in this file. *)
 From Coq Require Import ZArith String Ascii List Bool.
+Require Import V.Base.Calendar V.Base.CalendarFacts.
 Import ListNotations.
 Open Scope Z_scope.
 
@@ -28,6 +29,7 @@ Inductive expr :=
 | InList (a : expr) (vs : list val)          (* a IN (v1, ..., vn), literals only *)
 | Between (a lo hi : expr)
 | Like (a : expr) (pat : string)             (* a LIKE 'pattern' with % and _ wildcards, no escape character *)
+| Trunc (g : gran) (a : expr)                (* DATE_TRUNC(g, a) on a timestamp held as microseconds since 1970-01-01 *)
 | CaseWhen (c t : expr).                     (* CASE WHEN c THEN t ELSE NULL END *)
 
 Definition arith (f : Z -> Z -> Z) (a b : val) : val :=
@@ -82,6 +84,7 @@ Fixpoint eval (r : row) (e : expr) : val :=
   | InList a vs => fold_right (fun v acc => or3 (compare_val CEq (eval r a) v) acc) (VBool false) vs
   | Between a lo hi => and3 (compare_val CGe (eval r a) (eval r lo)) (compare_val CLe (eval r a) (eval r hi))
   | Like a pat => match eval r a with VStr s => VBool (like_match pat s) | _ => VNull end
+  | Trunc g a => match eval r a with VInt t => VInt (trunc g t) | _ => VNull end
   | CaseWhen c t => if is_true (eval r c) then eval r t else VNull
   end.
 
